@@ -58,6 +58,17 @@ CHECKS = {
             "trusted: the arc-length walker and chain-clause checker (60 lines); graphs larger than the bound and polylines "
             "off the lattice are not covered; completeness of the chain set is not asserted beyond the stated clauses",
             "DESIGN.md §4 C20"),
+    "C09": ("explicit-state breadth-first search over all add/remove/replace/generate operation histories (depth 3 quick, 4 "
+            "thorough) of the real Scenario from 3 start states, in lock-step with an abstract id-pool reference model",
+            "Every history over a universe of 17 objects with cross-kind colliding ids and 2 replacement networks (about 45 "
+            "enabled operations per state: single and list forms of every add/remove, referenced_elements on/off, replace, "
+            "erase, generate) is executed on a freshly rebuilt Scenario; after every transition: pairwise-distinct ids, "
+            "accept/reject equals the model, rejected adds leave the public snapshot unchanged, contained objects equal the "
+            "model's, generated ids fresh. States de-duplicated on public content + reserved-id set + counter.",
+            "trusted: the id-pool model (60 lines). Bound: histories longer than the depth and objects outside the universe "
+            "are not covered; list-form adds that would partially fail and network replacement colliding with obstacles are "
+            "outside the statement and not generated",
+            "DESIGN.md §4 C09"),
 }
 
 NOT_YET = {}
